@@ -18,7 +18,8 @@ INV = ["RaceFree", "CopyCoherent", "QuiescentCoherent"]
 
 def build_trace():
     return vlib.build("stress_trace", ["stress_concurrent.cpp"], SRCS, flags=["-DVERIF_TRACE"], opt="-O1",
-                      ldflags=["-Wl,--wrap=pthread_mutex_lock", "-Wl,--wrap=pthread_mutex_unlock"])
+                      ldflags=["-Wl,--wrap=pthread_mutex_lock", "-Wl,--wrap=pthread_mutex_unlock", "-Wl,--wrap=pthread_rwlock_wrlock",
+                               "-Wl,--wrap=pthread_rwlock_rdlock", "-Wl,--wrap=pthread_rwlock_unlock"])
 
 
 def build_tsan():
